@@ -52,10 +52,20 @@ CLIENT_INFO = {
     "reset-by-us": (0, None, None, None), "reset-by-peer": (0, None, None, None),
     "forgotten": (0, None, 1, None), "mid-block": (0, None, None, None),
     "two-streams": (0, 3, None, None), "ended": (0, None, 1, None),
+    # requests on 1 and 3, the application reset 1, a PUSH_PROMISE (1 -> 2) that raced the reset was refused: the peer
+    # has used stream id 2
+    "refused-push": (2, None, None, None),
 }
 
 
 def _build_extra(client, name, cfg):
+    if name == "refused-push":
+        h = H.Solo(True, **dict(cfg))
+        for o in (h.api("send_headers", 1, H.ni(H.REQ)), h.api("send_headers", 3, H.ni(H.REQ)), h.api("reset_stream", 1),
+                  h.rx([wire.push_promise(1, 2, sb(H.REQ))])):
+            assert o.kind == "ok", o.brief()
+        h.conn.data_to_send()
+        return h.conn
     if name != "ended":
         return None
     h = H.Solo(client, **dict(cfg))
